@@ -65,7 +65,7 @@ def check_refit(case):
 @st.composite
 def _refit_cases(draw, name, tier="quick"):
     entry = R.ENTRIES[name]
-    flavour = draw(st.integers(0, 1))
+    flavour = draw(st.integers(0, 11))
     spec = R.spec_for(name, draw, flavour)
     nd = draw(st.integers(2, 3))
     datasets = [entry.data(draw) for _ in range(nd)]
